@@ -144,9 +144,34 @@ func paramTagFor(vt int) string {
 	return ""
 }
 
+// specialStrings: what a name, description, string value or metadata string may legally be (all valid UTF-8: the
+// edit server receives them inside JSON bodies): control characters incl. NUL and DEL, the two line separators
+// encoding/json escapes, the replacement character, a BOM, the last code point, combining marks, right-to-left
+// text, text that looks like JSON / an escape / HTML, line ends of every kind
+var specialStrings = []string{"\x00", "nul\x00inside", "\x01\x02\x1f\x7f", "\u2028line\u2029sep", "\ufeffbom", "\ufffd", "\U0010FFFF", "e\u0301 combining", "\u05e9\u05dc\u05d5\u05dd rtl", "\\u0041 \\n \\\\", "</script><!--", "\r\n", "\r", "'single' 'back'", "{\"json\":true}", "null", "   ", "\b\f\v", "\"", "\\", "&<>", "\u00e9\u00a0nbsp", "a\tb\tc", "\u200b zero width", "%s %d %v", "$CurrentValue", "Out"}
+
+func longString(r *hx.Rng) string {
+	n := hx.Pick(r, []int{255, 256, 1000, 2500})
+	var b strings.Builder
+	for b.Len() < n {
+		b.WriteString(hx.Pick(r, []string{"lorem ipsum ", "x", "\"q\" ", "é", "<&> ", "\n", "0123456789"}))
+	}
+	return b.String()
+}
+
 func genString(r *hx.Rng) string {
 	pool := []string{"", "a", "name", "Radius (m)", "with \"quotes\" and \\ slash", "tab\tnew\nline", "ünï©ode ✓", "<b>&amp;</b>",
 		"a.b.c", "Node-3", "0", " lead", "x y", "emoji \U0001F600"}
+	switch r.Intn(24) {
+	case 0, 1, 2, 3:
+		run_count("string:special")
+		return hx.Pick(r, specialStrings)
+	case 4:
+		if r.Chance(1, 3) {
+			run_count("string:long")
+			return longString(r)
+		}
+	}
 	if r.Chance(2, 3) {
 		return hx.Pick(r, pool)
 	}
@@ -158,7 +183,20 @@ func genString(r *hx.Rng) string {
 	return string(b)
 }
 
+// specialNumbers: the ends of the float64 / float32 ranges and what lies just beyond them (refused or rounded by
+// the decoder), both zeros, integers at the edges of exactness, texts that switch encoding/json between its 'f'
+// and 'e' formats (1e-6, 1e21)
+var specialNumbers = []string{"5e-324", "-5e-324", "2.2250738585072014e-308", "2.225073858507201e-308", "1.7976931348623157e308",
+	"-1.7976931348623157e308", "1e309", "-1e309", "1e-400", "0.000001", "0.0000009", "1e21", "1e20", "999999999999999900000",
+	"123456789012345678901234567890", "4503599627370497.5", "9007199254740992", "-9007199254740993", "9223372036854775807",
+	"9223372036854775808", "-9223372036854775808", "18446744073709551616", "3.4028235e38", "3.4028236e38", "-3.4028235e38", "1e39",
+	"1e-45", "1.4e-45", "1e-46", "1.17549435e-38", "16777216", "16777217", "0.1", "0.30000000000000004", "-0.0", "0e0", "-0e-5", "1E+2"}
+
 func genNumber(r *hx.Rng) string {
+	if r.Chance(1, 4) {
+		run_count("number:special")
+		return hx.Pick(r, specialNumbers)
+	}
 	switch r.Intn(9) {
 	case 0:
 		return fmt.Sprint(r.Range(-20, 20))
@@ -260,6 +298,11 @@ func genCanonicalMessage(r *hx.Rng, tag string) []byte {
 	case "f64", "f32":
 		return []byte(genNumber(r))
 	case "int":
+		if r.Chance(1, 5) { // the ends of the int range, what lies beyond, and number texts an int refuses
+			return []byte(hx.Pick(r, []string{"9223372036854775807", "-9223372036854775808", "9223372036854775808", "-9223372036854775809",
+				"-0", "1e3", "1.0", "0.5", "00", "+1", "2147483648", "-2147483649", "4294967296", "9007199254740993", "-9007199254740993",
+				"1152921504606846977"}))
+		}
 		return []byte(fmt.Sprint(hx.Pick(r, []int{0, 1, -1, 7, 25, -300, 1 << 40, r.Range(-1000, 1000)})))
 	case "str":
 		b, _ := json.Marshal(genString(r))
@@ -333,6 +376,17 @@ func genCanonicalMessage(r *hx.Rng, tag string) []byte {
 	return []byte("null")
 }
 
+// genMetaNumber: a number the server's decoder (encoding/json into any) accepts
+func genMetaNumber(r *hx.Rng) string {
+	for {
+		s := genNumber(r)
+		var v any
+		if json.Unmarshal([]byte(s), &v) == nil {
+			return s
+		}
+	}
+}
+
 func genMetaValue(r *hx.Rng, depth int) string {
 	switch r.Intn(8) {
 	case 0:
@@ -340,7 +394,7 @@ func genMetaValue(r *hx.Rng, depth int) string {
 	case 1:
 		return hx.Pick(r, []string{"true", "false"})
 	case 2:
-		return genNumber(r)
+		return genMetaNumber(r)
 	case 3:
 		b, _ := json.Marshal(genString(r))
 		return string(b)
@@ -355,10 +409,11 @@ func genMetaValue(r *hx.Rng, depth int) string {
 		}
 		return "[]"
 	case 5:
-		return fmt.Sprintf(`{"x":%s,"y":%s}`, genNumber(r), genNumber(r))
+		return fmt.Sprintf(`{"x":%s,"y":%s}`, genMetaNumber(r), genMetaNumber(r))
 	default:
 		if depth > 0 {
-			keys := []string{"zeta", "alpha", "Beta", "10", "2", "é", "pos", ""}
+			keys := []string{"zeta", "alpha", "Beta", "10", "2", "é", "pos", "", "q\"k", "<k>&", "k\nl", " ", "a.b", "\u2028", "\x00", "Zeta", "alphA",
+				strings.Repeat("k", 300)}
 			n := r.Intn(4)
 			parts := []string{}
 			seen := map[string]bool{}
@@ -390,7 +445,8 @@ func (g *gen) genMetaPath() string {
 		if len(g.nodes) > 0 && r.Chance(1, 3) {
 			return hx.Pick(r, g.nodes).id
 		}
-		return hx.Pick(r, []string{"nodes", "notes", "position", "a", "B", "10", "9", "zz", ""})
+		return hx.Pick(r, []string{"nodes", "notes", "position", "a", "B", "10", "9", "zz", "", "nodes", "notes", "sp ace", "q\"", "ü", "<&>", "\n",
+			"Notes", "NODES", "variables", "profiles"})
 	}
 	n := r.Range(1, 3)
 	parts := make([]string, n)
@@ -400,7 +456,67 @@ func (g *gen) genMetaPath() string {
 	return strings.Join(parts, ".")
 }
 
+// producerNames: a producer name is a file name the user types: any string. Paths that are not in their
+// shortest form (./x, a/../x, a//x, x/), absolute and parent-relative ones, other separators, empty and dot
+// names, names needing JSON escaping, unicode, names that collide after case folding / cleaning / trimming
+var producerNames = []string{"out.txt", "a.bin", "b/c.png", "Out.txt", "out.txt", "x", "10.txt", "2.txt",
+	"./summary.txt", "summary.txt", "docs/../x.txt", "x.txt", "docs//x.txt", "docs/x.txt", "/x.txt", "//x.txt", "a\\b.txt", "a/b.txt", "C:\\temp\\x.txt",
+	"dir/", "dir", ".", "..", "../up.txt", "a/./b.txt", "./", "", " ", " out.txt", "out.txt ", "OUT.TXT", "ünï/✓.txt", "q\"uote<&>.txt",
+	"tab\there.txt", "new\nline.txt", "a.b.c", "Node-1", "nodes.Node-0", "x.txt/", "//", "a/b/../../c.txt", "%2e%2e/x", "\u2028.txt", "nul\x00.bin",
+	"e\u0301.txt", "\u00e9.txt", ".hidden", "~/home.txt", "*.glb", "con", "a:b"}
+
+func genProducerName(r *hx.Rng) string {
+	if r.Chance(1, 40) {
+		return strings.Repeat("long-name/", 30) + "x.txt"
+	}
+	k := r.Intn(len(producerNames))
+	if k >= 8 {
+		run_count("producer-name:special-form")
+	}
+	return producerNames[k]
+}
+
+// namePrefix: the same file name written as a path that is not in its shortest form
+func namePrefix(r *hx.Rng) string {
+	if r.Chance(1, 2) {
+		return ""
+	}
+	run_count("producer-name:special-form")
+	return hx.Pick(r, []string{"./", "out/../", "out//", "/", "sub\\", "../", "a/./", " ", ".//"})
+}
+
 func (g *gen) randomOp() {
+	r := g.r
+	if r.Chance(1, 12) { // a read in between: artifacts produced (caches warm), graph and parameters queried
+		g.do(Op{K: "eval"})
+		return
+	}
+	g.opByWeight(r.Intn(100))
+}
+
+// editKinds: one representative weight per kind of edit (see opByWeight)
+var editKinds = map[string]int{"create": 0, "connect": 20, "disconnect": 50, "delete": 56, "update": 60, "name": 74, "desc": 80,
+	"producer": 85, "setmeta": 90, "delmeta": 96}
+var editKindNames = []string{"create", "connect", "disconnect", "delete", "update", "name", "desc", "producer", "setmeta", "delmeta"}
+
+// savedThenEdited: the graph is saved (the autosave of the edit server), then edited by one or two edits of a
+// single kind each — whatever a node, a parameter or the encoder remembers from the earlier save must not
+// show in the next one
+func (g *gen) savedThenEdited() {
+	g.do(Op{K: "eval"})
+	for k, m := 0, g.r.Range(1, 2); k < m; k++ {
+		kind := hx.Pick(g.r, editKindNames)
+		n := len(g.ops)
+		for try := 0; try < 4 && len(g.ops) == n; try++ {
+			g.opByWeight(editKinds[kind])
+		}
+		if len(g.ops) > n {
+			run_count("saved-then-edited:" + kind)
+		}
+	}
+}
+
+func (g *gen) opByWeight(w int) {
 	r := g.r
 	live := g.nodes
 	pickNode := func() *gnode {
@@ -409,11 +525,8 @@ func (g *gen) randomOp() {
 		}
 		return hx.Pick(r, live)
 	}
-	if r.Chance(1, 12) { // a read in between: artifacts produced (caches warm), graph and parameters queried
-		g.do(Op{K: "eval"})
-		return
-	}
-	switch w := r.Intn(100); {
+	_ = pickNode
+	switch {
 	case w < 12: // create
 		if r.Chance(3, 5) {
 			g.create(hx.Pick(r, paramTags))
@@ -472,8 +585,17 @@ func (g *gen) randomOp() {
 			if p.Array && !r.Chance(1, 10) {
 				k := r.Intn(len(l))
 				name := fmt.Sprintf("%s.%d", p.Name, k)
-				if r.Chance(1, 8) {
+				switch r.Intn(16) {
+				case 0, 1:
 					name = fmt.Sprintf("%s.0%d", p.Name, k) // Atoi accepts leading zeros
+				case 2:
+					name = fmt.Sprintf("%s.+%d", p.Name, k) // and a sign
+					run_count("disconnect:signed-index")
+				case 3:
+					if k == 0 {
+						name = p.Name + ".-0"
+						run_count("disconnect:signed-index")
+					}
 				}
 				if g.do(Op{K: "disconnect", ID: n.id, Port: name}) {
 					n.ins[p.Name] = append(append([]string{}, l[:k]...), l[k+1:]...)
@@ -502,8 +624,14 @@ func (g *gen) randomOp() {
 		n := hx.Pick(r, cands)
 		g.do(Op{K: "update", ID: n.id, Msg: b64(genMessage(r, tyTable[n.ti].Tag))})
 	case w < 77: // name
-		if n := pickNode(); n != nil && tyTable[n.ti].PKind != 0 {
-			g.do(Op{K: "name", ID: n.id, S: genString(r)})
+		var cands []*gnode
+		for _, n := range live {
+			if tyTable[n.ti].PKind != 0 {
+				cands = append(cands, n)
+			}
+		}
+		if len(cands) > 0 {
+			g.do(Op{K: "name", ID: hx.Pick(r, cands).id, S: genString(r)})
 		}
 	case w < 83: // description
 		var cands []*gnode
@@ -526,8 +654,7 @@ func (g *gen) randomOp() {
 			g.create(hx.Pick(r, []string{"text", "binary", "imageart"}))
 			return
 		}
-		name := hx.Pick(r, []string{"out.txt", "a.bin", "b/c.png", "Out.txt", "out.txt", "x", "10.txt", "2.txt"})
-		g.do(Op{K: "producer", ID: hx.Pick(r, cands).id, S: name})
+		g.do(Op{K: "producer", ID: hx.Pick(r, cands).id, S: genProducerName(r)})
 	case w < 95: // set metadata
 		p := g.genMetaPath()
 		mv := genMetaValue(r, 2)
@@ -555,7 +682,8 @@ func (g *gen) randomOp() {
 			}
 		case 4:
 			if n := pickNode(); n != nil {
-				g.do(Op{K: "disconnect", ID: n.id, Port: hx.Pick(r, []string{"Values.99", "Values.x", "Nope", "Value.0", "Values."})})
+				g.do(Op{K: "disconnect", ID: n.id, Port: hx.Pick(r, []string{"Values.99", "Values.x", "Nope", "Value.0", "Values.", "Values.-1", "Values.+99", "Values.+-0", "Values.99999999999999999999",
+					"Values.0x0", "Values.1_0", "Values. 0", "Values.0.0", ".0", "."})})
 			}
 		case 5:
 			if n := pickNode(); n != nil && !tyTable[n.ti].Artifact {
@@ -574,6 +702,16 @@ func genHist(r *hx.Rng, run *hx.Run, i int) histDesc {
 	g := newGen(r)
 	d := histDesc{AppName: hx.Pick(r, []string{"", "Graph", "ünï"}), AppVersion: hx.Pick(r, []string{"", "v0.0.1"}),
 		AppDesc: hx.Pick(r, []string{"", "a description"})}
+	if r.Chance(1, 3) { // the rest of the header that is saved with the graph
+		d.AppName, d.AppVersion, d.AppDesc = genString(r), hx.Pick(r, []string{"", "v0.0.1", "1.2.3-rc.1+build<7>"}), genString(r)
+		d.Authors = hx.Pick(r, []string{"", "[]", `[{"name":"A. Uthor"}]`,
+			`[{"name":"x","contactInfo":[{"medium":"email","value":"a@b.c"},{"medium":"","value":""}]},{"name":""},{"name":"Zoë <z&z> \"q\"","contactInfo":[]}]`,
+			`[{"name":"b"},{"name":"a"},{"name":"b"}]`})
+		d.WebScene = hx.Pick(r, []string{"", "{}",
+			`{"renderWireframe":true,"antiAlias":false,"xrEnabled":true,"fog":{"color":"#a0b0c0","near":0.1,"far":1e3},"background":"#00000080","lighting":"#fff","ground":"#123456"}`,
+			`{"antiAlias":true,"fog":{"color":"#ffffffff","near":-0.0,"far":3.4028235e38},"background":"#abcd","lighting":"#FFFFFF","ground":"#00000000"}`})
+		run.Count("header:authors/webScene/special strings")
+	}
 	switch i % 4 {
 	case 3: // wire encodings: parameters of every type, each updated a few times, all feeding artifacts
 		de := g.create("describe")
@@ -606,7 +744,7 @@ func genHist(r *hx.Rng, run *hx.Run, i int) histDesc {
 				if r.Chance(1, 2) {
 					ia := g.create("imageart")
 					g.connect(n, ia, tyTable[ia.ti].Ports[0])
-					g.do(Op{K: "producer", ID: ia.id, S: n.id + ".png"})
+					g.do(Op{K: "producer", ID: ia.id, S: namePrefix(r) + n.id + ".png"})
 					continue
 				}
 				fallthrough
@@ -622,7 +760,7 @@ func genHist(r *hx.Rng, run *hx.Run, i int) histDesc {
 				if tag == "file" {
 					bn := g.create("binary")
 					g.connect(n, bn, tyTable[bn.ti].Ports[0])
-					g.do(Op{K: "producer", ID: bn.id, S: n.id + ".bin"})
+					g.do(Op{K: "producer", ID: bn.id, S: namePrefix(r) + n.id + ".bin"})
 				}
 			}
 		}
@@ -630,7 +768,7 @@ func genHist(r *hx.Rng, run *hx.Run, i int) histDesc {
 		for _, src := range []*gnode{de, jn} {
 			t := g.create("text")
 			g.connect(src, t, tyTable[t.ti].Ports[0])
-			g.do(Op{K: "producer", ID: t.id, S: src.id + ".txt"})
+			g.do(Op{K: "producer", ID: t.id, S: namePrefix(r) + src.id + ".txt"})
 		}
 		for k, m := 0, r.Range(0, 8); k < m; k++ {
 			g.randomOp()
@@ -708,13 +846,13 @@ func genHist(r *hx.Rng, run *hx.Run, i int) histDesc {
 		if tyTable[dst.ti].Out == vtStr {
 			t := g.create("text")
 			g.connect(dst, t, tyTable[t.ti].Ports[0])
-			g.do(Op{K: "producer", ID: t.id, S: "out.txt"})
+			g.do(Op{K: "producer", ID: t.id, S: namePrefix(r) + "out.txt"})
 		} else if tyTable[dst.ti].Out == vtF64 {
 			j := g.create("join")
 			g.connect(dst, j, tyTable[j.ti].Ports[1]) // Numbers
 			t := g.create("text")
 			g.connect(j, t, tyTable[t.ti].Ports[0])
-			g.do(Op{K: "producer", ID: t.id, S: "sum.txt"})
+			g.do(Op{K: "producer", ID: t.id, S: namePrefix(r) + "sum.txt"})
 		}
 		if r.Chance(1, 2) { // the artifact is produced, THEN elements are disconnected (caches must not outlive edits)
 			g.do(Op{K: "eval"})
@@ -764,12 +902,12 @@ func genHist(r *hx.Rng, run *hx.Run, i int) histDesc {
 		}
 		bn := g.create("binary")
 		g.connect(cat, bn, tyTable[bn.ti].Ports[0])
-		g.do(Op{K: "producer", ID: bn.id, S: "cat.bin"})
+		g.do(Op{K: "producer", ID: bn.id, S: namePrefix(r) + "cat.bin"})
 		for _, n := range g.nodes {
 			if tyTable[n.ti].Tag == "image" && r.Chance(2, 3) {
 				ia := g.create("imageart")
 				g.connect(n, ia, tyTable[ia.ti].Ports[0])
-				g.do(Op{K: "producer", ID: ia.id, S: n.id + ".png"})
+				g.do(Op{K: "producer", ID: ia.id, S: namePrefix(r) + n.id + ".png"})
 			}
 		}
 		if r.Chance(1, 2) {
@@ -783,7 +921,7 @@ func genHist(r *hx.Rng, run *hx.Run, i int) histDesc {
 			}
 			t := g.create("text")
 			g.connect(de, t, tyTable[t.ti].Ports[0])
-			g.do(Op{K: "producer", ID: t.id, S: "describe.txt"})
+			g.do(Op{K: "producer", ID: t.id, S: namePrefix(r) + "describe.txt"})
 		}
 		for k, m := 0, r.Range(0, 15); k < m; k++ {
 			g.randomOp()
@@ -806,6 +944,9 @@ func genHist(r *hx.Rng, run *hx.Run, i int) histDesc {
 			g.deleteNode(hx.Pick(r, cands))
 		}
 	}
+	if r.Chance(1, 2) { // save, edit, then the save that is loaded
+		g.savedThenEdited()
+	}
 	n0 := len(g.ops)
 	if r.Chance(2, 3) {
 		g.create(hx.Pick(r, paramTags))
@@ -815,6 +956,9 @@ func genHist(r *hx.Rng, run *hx.Run, i int) histDesc {
 	}
 	if r.Chance(1, 2) {
 		g.create(hx.Pick(r, procTags))
+	}
+	if r.Chance(1, 2) { // the same after the reload: the continuation's save is loaded once more
+		g.savedThenEdited()
 	}
 	d.Ops, d.Cont = g.ops[:n0:n0], g.ops[n0:]
 	return d
@@ -941,8 +1085,149 @@ func continuationHistories() []histDesc {
 	return out
 }
 
+// savedBetweenHistories: save -> ONE edit -> save -> load, for every kind of edit and every kind of parameter;
+// before the reload (the edit in Ops after a read) and after it (the edit in Cont after a read: the continuation's
+// save is loaded again)
+func savedBetweenHistories() []histDesc {
+	base := []Op{{K: "create", Ty: "f64"}, {K: "create", Ty: "str"}, {K: "create", Ty: "image"}, {K: "create", Ty: "file"},
+		{K: "create", Ty: "sum"}, {K: "create", Ty: "join"}, {K: "create", Ty: "text"}, {K: "create", Ty: "binary"}, {K: "create", Ty: "color"},
+		{K: "update", ID: "Node-0", Msg: b64([]byte("2.5"))}, {K: "update", ID: "Node-1", Msg: b64([]byte(`"text"`))},
+		{K: "update", ID: "Node-3", Msg: b64([]byte("bytes"))}, {K: "update", ID: "Node-2", Msg: b64(genPNG(hx.NewRng(11)))},
+		{K: "name", ID: "Node-0", S: "radius"}, {K: "desc", ID: "Node-0", S: "in metres"}, {K: "name", ID: "Node-3", S: "blob"},
+		{K: "name", ID: "Node-2", S: "picture"}, {K: "desc", ID: "Node-2", S: "a picture"}, {K: "name", ID: "Node-8", S: "tint"},
+		{K: "connect", Src: "Node-0", ID: "Node-4", Port: "Values.0"}, {K: "connect", Src: "Node-1", ID: "Node-5", Port: "Parts.0"},
+		{K: "connect", Src: "Node-4", ID: "Node-5", Port: "Numbers.0"}, {K: "connect", Src: "Node-5", ID: "Node-6", Port: "In"},
+		{K: "connect", Src: "Node-3", ID: "Node-7", Port: "In"}, {K: "producer", ID: "Node-6", S: "out.txt"}, {K: "producer", ID: "Node-7", S: "b.bin"},
+		{K: "setmeta", S: "notes.n0", V: `{"text":"first"}`}, {K: "setmeta", S: "nodes.Node-4.position", V: `{"x":1,"y":2}`},
+		{K: "eval"}}
+	edits := [][]Op{
+		{{K: "name", ID: "Node-0", S: "renamed"}}, {{K: "desc", ID: "Node-0", S: "described again"}},
+		{{K: "name", ID: "Node-1", S: ""}}, {{K: "desc", ID: "Node-1", S: "was empty"}},
+		{{K: "name", ID: "Node-3", S: "renamed file"}}, {{K: "desc", ID: "Node-3", S: "file described"}},
+		{{K: "name", ID: "Node-2", S: "renamed picture"}}, {{K: "desc", ID: "Node-2", S: ""}},
+		{{K: "name", ID: "Node-8", S: "renamed colour"}, {K: "desc", ID: "Node-8", S: "and described"}},
+		{{K: "update", ID: "Node-0", Msg: b64([]byte("-0.0"))}}, {{K: "update", ID: "Node-3", Msg: b64([]byte{})}},
+		{{K: "update", ID: "Node-2", Msg: b64(genPNG(hx.NewRng(12)))}}, {{K: "update", ID: "Node-8", Msg: b64([]byte(`"#01020304"`))}},
+		{{K: "producer", ID: "Node-6", S: "renamed.txt"}}, {{K: "producer", ID: "Node-7", S: "out.txt"}},
+		{{K: "setmeta", S: "notes.n0.text", V: `"second"`}}, {{K: "delmeta", S: "notes.n0"}}, {{K: "setmeta", S: "nodes.Node-4", V: `{}`}},
+		{{K: "connect", Src: "Node-0", ID: "Node-4", Port: "Values.1"}}, {{K: "disconnect", ID: "Node-4", Port: "Values.0"}},
+		{{K: "connect", Src: "Node-0", ID: "Node-4", Port: "Value"}}, {{K: "disconnect", ID: "Node-5", Port: "Parts"}},
+		{{K: "create", Ty: "f64"}}, {{K: "delete", ID: "Node-7"}}, {{K: "delete", ID: "Node-8"}, {K: "create", Ty: "file"}},
+	}
+	out := []histDesc{}
+	for k := range edits {
+		ops := append(append([]Op{}, base...), edits[k]...)
+		// after the reload: another read, then the next kind of edit
+		next := edits[(k+7)%len(edits)]
+		out = append(out, withCont(hist(ops...), append([]Op{{K: "eval"}}, next...)...))
+	}
+	return out
+}
+
+// producerNameHistories: producer names in every special form, several per graph (names that coincide once a
+// path is brought into its shortest form, folded or trimmed must stay apart)
+func producerNameHistories() []histDesc {
+	out := []histDesc{}
+	for lo := 8; lo < len(producerNames); lo += 6 {
+		ops := []Op{{K: "create", Ty: "str"}, {K: "update", ID: "Node-0", Msg: b64([]byte(`"content"`))}}
+		hi := lo + 6
+		if hi > len(producerNames) {
+			hi = len(producerNames)
+		}
+		for k, name := range producerNames[lo:hi] {
+			id := fmt.Sprintf("Node-%d", k+1)
+			ops = append(ops, Op{K: "create", Ty: "text"}, Op{K: "connect", Src: "Node-0", ID: id, Port: "In"}, Op{K: "producer", ID: id, S: name})
+		}
+		out = append(out, withCont(hist(ops...), Op{K: "create", Ty: "text"}, Op{K: "producer", ID: fmt.Sprintf("Node-%d", hi-lo+1), S: producerNames[lo]}))
+	}
+	return out
+}
+
+// specialValueHistories: every parameter kind holding the special values of its type, with names and descriptions
+// that need escaping; metadata (notes, node positions, other subtrees) holding them as well
+func specialValueHistories() []histDesc {
+	out := []histDesc{}
+	kinds := []struct {
+		tag  string
+		msgs []string
+	}{
+		{"f64", specialNumbers}, {"f32", specialNumbers},
+		{"int", []string{"9223372036854775807", "-9223372036854775808", "9223372036854775808", "-0", "1e3", "2147483648", "9007199254740993"}},
+		{"v2", []string{`{"x":5e-324,"y":-1.7976931348623157e308}`, `{"x":-0.0,"y":1e21}`, `{"x":1e309,"y":0}`}},
+		{"v3", []string{`{"x":2.2250738585072014e-308,"y":0.000001,"z":9007199254740993}`, `{"x":-0,"y":-0.0,"z":0e0}`}},
+		{"v3arr", []string{`[{"x":5e-324},{"y":-5e-324},{"z":1.7976931348623157e308}]`}},
+		{"aabb", []string{`{"center":{"x":1e300,"y":-1e300,"z":5e-324},"extents":{"x":-1,"y":-0.0,"z":1e-320}}`}},
+		{"color", []string{`"#00000000"`, `"#000000ff"`, `"#fffffffe"`, `"#0000"`, `"#ffff"`, `"#FfFf"`}},
+	}
+	for _, kd := range kinds {
+		ops := []Op{}
+		for k, m := range kd.msgs {
+			id := fmt.Sprintf("Node-%d", k)
+			ops = append(ops, Op{K: "create", Ty: kd.tag}, Op{K: "update", ID: id, Msg: b64([]byte(m))},
+				Op{K: "name", ID: id, S: specialStrings[(k*3)%len(specialStrings)]}, Op{K: "desc", ID: id, S: specialStrings[(k*3+1)%len(specialStrings)]})
+		}
+		out = append(out, hist(ops...))
+	}
+	// strings: every special string as a value, a name, a description, an element of a []string, a metadata value and key
+	ops := []Op{}
+	for k, sp := range append(append([]string{}, specialStrings...), longString(hx.NewRng(3))) {
+		id := fmt.Sprintf("Node-%d", k)
+		body, _ := json.Marshal(sp)
+		tag := "str"
+		if k%3 == 2 {
+			tag, body = "strs", []byte("["+string(body)+`,"",`+string(body)+"]")
+		}
+		ops = append(ops, Op{K: "create", Ty: tag}, Op{K: "update", ID: id, Msg: b64(body)})
+		if k%2 == 0 {
+			ops = append(ops, Op{K: "name", ID: id, S: sp})
+		} else {
+			ops = append(ops, Op{K: "desc", ID: id, S: sp})
+		}
+		if !strings.Contains(sp, ".") {
+			ops = append(ops, Op{K: "setmeta", S: "notes." + sp, V: fmt.Sprintf(`{"text":%s,%s:[%s]}`, string(body), jsonKey(sp), genNumberAt(k))})
+		}
+	}
+	out = append(out, hist(ops...))
+	// file payloads: empty, one byte, every byte value, bytes that are JSON / base64 / a PNG signature
+	all := make([]byte, 256)
+	for i := range all {
+		all[i] = byte(i)
+	}
+	ops = []Op{}
+	for k, b := range [][]byte{{}, {0}, all, []byte(`{"$CurrentValue":0}`), []byte("QUJD"), []byte("\x89PNG\r\n\x1a\n")} {
+		id := fmt.Sprintf("Node-%d", k)
+		ops = append(ops, Op{K: "create", Ty: "file"}, Op{K: "update", ID: id, Msg: b64(b)}, Op{K: "name", ID: id, S: specialStrings[k]})
+	}
+	out = append(out, hist(ops[:3]...), hist(ops[3:6]...), hist(ops[6:9]...), hist(ops...))
+	// metadata: deep nesting, empty containers, special numbers, keys in every order, the subtrees the editor uses
+	out = append(out, hist(Op{K: "create", Ty: "sum"},
+		Op{K: "setmeta", S: "notes", V: `{}`}, Op{K: "setmeta", S: "notes.a.b.c.d.e.f", V: `[[[[[[]]]]],{"":{"":{"":null}}}]`},
+		Op{K: "setmeta", S: "nodes.Node-0.position", V: `{"x":-0.0,"y":1e-7}`}, Op{K: "setmeta", S: "nodes.Node-0.size", V: `[5e-324,1.7976931348623157e308,1e21,1e20,0.000001]`},
+		Op{K: "setmeta", S: "variables.v1", V: `{"type":"float64","value":1.5,"description":"<a \"variable\">"}`},
+		Op{K: "setmeta", S: "profiles.default", V: `{"Node-0":{"data":null}}`},
+		Op{K: "setmeta", S: "notes.z", V: `{"b":1,"a":2,"B":3,"A":4,"10":5,"9":6,"é":7,"e":8}`},
+		Op{K: "setmeta", S: "", V: `"the empty key"`}, Op{K: "setmeta", S: ".", V: `"two empty keys"`}, Op{K: "setmeta", S: "notes..x", V: `1`},
+		Op{K: "delmeta", S: "notes.a.b.c.d.e"}, Op{K: "delmeta", S: "notes.a.b.c.d.e"}, Op{K: "delmeta", S: "nothing"},
+		Op{K: "setmeta", S: "notes.a.b", V: `null`}, Op{K: "setmeta", S: "notes.a.b.c", V: `1`}))
+	return out
+}
+
+func jsonKey(s string) string { b, _ := json.Marshal("k" + s); return string(b) }
+func genNumberAt(k int) string {
+	for ; ; k++ {
+		s := specialNumbers[k%len(specialNumbers)]
+		var v any
+		if json.Unmarshal([]byte(s), &v) == nil {
+			return s
+		}
+	}
+}
+
 func fixedHistories() []histDesc {
 	out := []histDesc{hist()}
+	out = append(out, savedBetweenHistories()...)
+	out = append(out, producerNameHistories()...)
+	out = append(out, specialValueHistories()...)
 	out = append(out, widthBoundaryHistories()...)
 	out = append(out, encodingHistories()...)
 	out = append(out, warmCacheHistories()...)
@@ -967,6 +1252,19 @@ func fixedHistories() []histDesc {
 		Op{K: "connect", Src: "Node-3", ID: "Node-0", Port: "Parts.2"}, Op{K: "disconnect", ID: "Node-0", Port: "Parts.1"},
 		Op{K: "connect", Src: "Node-2", ID: "Node-0", Port: "Parts.2"},
 		Op{K: "create", Ty: "text"}, Op{K: "connect", Src: "Node-0", ID: "Node-4", Port: "In"}, Op{K: "producer", ID: "Node-4", S: "p.txt"}))
+	// disconnect requests whose index carries a sign (strconv.Atoi reads "+1" as 1 and "-0" as 0)
+	out = append(out, hist(Op{K: "create", Ty: "sum"}, Op{K: "create", Ty: "f64"}, Op{K: "create", Ty: "f64"}, Op{K: "create", Ty: "f64"},
+		Op{K: "update", ID: "Node-1", Msg: b64([]byte("1"))}, Op{K: "update", ID: "Node-2", Msg: b64([]byte("2"))}, Op{K: "update", ID: "Node-3", Msg: b64([]byte("3"))},
+		Op{K: "connect", Src: "Node-1", ID: "Node-0", Port: "Values.0"}, Op{K: "connect", Src: "Node-2", ID: "Node-0", Port: "Values.1"},
+		Op{K: "connect", Src: "Node-3", ID: "Node-0", Port: "Values.2"}, Op{K: "connect", Src: "Node-1", ID: "Node-0", Port: "Values.3"},
+		Op{K: "disconnect", ID: "Node-0", Port: "Values.+1"}, Op{K: "disconnect", ID: "Node-0", Port: "Values.-1"},
+		Op{K: "disconnect", ID: "Node-0", Port: "Values.-0"}, Op{K: "disconnect", ID: "Node-0", Port: "Values.+-0"},
+		Op{K: "disconnect", ID: "Node-0", Port: "Values.+07"}, Op{K: "disconnect", ID: "Node-0", Port: "Values.+01"}))
+	// a Value[T] type whose registered record is not empty: name, description and value set back to the empty ones
+	out = append(out, hist(Op{K: "create", Ty: "f32"}, Op{K: "create", Ty: "strs"}, Op{K: "name", ID: "Node-0", S: ""}, Op{K: "desc", ID: "Node-0", S: ""},
+		Op{K: "update", ID: "Node-0", Msg: b64([]byte("0"))}, Op{K: "name", ID: "Node-1", S: ""}, Op{K: "update", ID: "Node-1", Msg: b64([]byte("[]"))}),
+		hist(Op{K: "create", Ty: "f32"}, Op{K: "create", Ty: "strs"}, Op{K: "desc", ID: "Node-0", S: ""}, Op{K: "desc", ID: "Node-1", S: "now described"},
+			Op{K: "update", ID: "Node-1", Msg: b64([]byte("null"))}))
 	// delete then create: the id allocation rule (ids 0 1 2, delete 0, create -> Node-3; delete 3, create -> Node-3)
 	out = append(out, hist(Op{K: "create", Ty: "f64"}, Op{K: "create", Ty: "int"}, Op{K: "create", Ty: "str"}, Op{K: "delete", ID: "Node-0"},
 		Op{K: "create", Ty: "bool"}, Op{K: "delete", ID: "Node-3"}, Op{K: "create", Ty: "v2"}, Op{K: "delete", ID: "Node-1"}, Op{K: "create", Ty: "v3"},
